@@ -39,7 +39,7 @@ GSpec == GInit /\ Idle /\ [][GNext]_<<gvars, sc, pos, phase>>
 \* ---- seeded simulation.  NOTE: TLC re-evaluates a LET definition at every use, so every random draw is
 \* bound exactly once with  \E x \in {RandomElement(..)}.
 AllOpsSeq == <<"Withdraw", "WithdrawNF", "TakeFromWorktop", "TakeNF", "TakeAll", "ReturnToWorktop", "Deposit", "DepositBatch",
-               "Mint", "MintNF", "MintNFWrongType", "MintRuid", "Burn", "BurnInAccount", "BurnNFInAccount", "Recall", "RecallNF",
+               "Mint", "MintNF", "MintNFWrongType", "MintRuid", "MintSingleRuid", "WithdrawNFAmount", "BurnNFAmountInAccount", "RecallNFAmount", "Burn", "BurnInAccount", "BurnNFInAccount", "Recall", "RecallNF",
                "ProofOfAmount", "ProofOfNF", "BucketProofOfAmount", "BucketProofOfNF", "BucketProofOfAll", "PopFromAuthZone",
                "PushToAuthZone", "CloneProof", "DropProof", "DropAllProofs", "DropNamedProofs", "DropAuthZoneProofs",
                "DropAuthZoneRegularProofs", "DropAuthZoneSignatureProofs", "AzProofOfAmount", "AzProofOfNF", "AzProofOfAll",
